@@ -48,6 +48,35 @@ theorem c10_total (F : String) (ρ : String → Int) (e : BoolE) :
   obtain ⟨c, hc⟩ := goB_total F ρ e
   exact ⟨f, c, hf, by rw [hp]; exact hc⟩
 
+/-! ### "must fail loudly": a function or method the translator has no rendering for is REFUSED by the model
+    (`none`: `fallback` records the construct, `convertCELToGo` returns an error and generation stops) — it is
+    never printed as the literal `true`. Before the `fix:` commit recorded in known_findings.json the real
+    translator printed `true` there (`//govalid:cel=value[0]` on a `[]bool` field compiled to `if !(true)`). -/
+
+theorem c10_unknown_function_refused (F fn : String) (args : List Expr)
+    (hb : ∀ as, builtinText fn as = none) (hs : fnSym fn = none)
+    (h1 : fn ≠ "_?_:_") (h2 : fn ≠ "@in") (h3 : fn ≠ "!_") (h4 : fn ≠ "-_") :
+    toGo F (.call fn args) = none := by
+  unfold toGo
+  cases h : toGoList F args with
+  | none => rfl
+  | some as =>
+    simp only []
+    split <;> simp_all
+
+theorem c10_unknown_method_refused (F fn : String) (t : Expr) (args : List Expr)
+    (hm : ∀ x as, methodText fn x as = none) : toGo F (.mcall fn t args) = none := by
+  unfold toGo
+  cases toGo F t <;> cases toGoList F args <;> simp [hm]
+
+/-- non-vacuity: the index operator and `bool()` meet the hypotheses -/
+example (F : String) (a b : Expr) : toGo F (.call "_[_]" [a, b]) = none :=
+  c10_unknown_function_refused F "_[_]" [a, b] (by intro as; simp [builtinText]) (by decide) (by decide) (by decide) (by decide) (by decide)
+example (F : String) (a : Expr) : toGo F (.call "bool" [a]) = none :=
+  c10_unknown_function_refused F "bool" [a] (by intro as; simp [builtinText]) (by decide) (by decide) (by decide) (by decide) (by decide)
+example (F : String) (t : Expr) : toGo F (.mcall "size" t []) = none :=
+  c10_unknown_method_refused F "size" t [] (by intro x as; simp [methodText])
+
 /-! ### why the parentheses matter: the flat text of the translator BEFORE the fix (`fix:` commit
     recorded in known_findings.json) for `(value + 1) * 2 > 10` parses to a different tree -/
 
